@@ -150,5 +150,17 @@ def run(ctx):
                           f"{cm[k][:200] if k < len(cm) else '?'}", "history output differs from the stateless model")
         if len(ctx.samples) < 4 and ctx.evaluations % 211 == 1:
             ctx.samples.append(dict(history=c[:300], outputs=outs[:8]))
+    # a clone of a compiled expression behaves as the original, also when it was compiled by a runtime with its own registry
+    # (implementation alone: the registry stream run twice, once searching through `expr.clone()` after dropping the original)
+    if not getattr(ctx, "replay", None):
+        import props.c15 as c15
+        rc = [c15.encode(c) for c in c15.gen(ctx)[:400 if ctx.tier == "quick" else 20000]]
+        a = C.run_parallel([ctx.harness, "registry"], rc)
+        b = C.run_parallel([ctx.harness, "registryclone"], rc)
+        for line, x, y in zip(rc, a, b):
+            ctx.evaluations += 1
+            if x != y:
+                ctx.violation("registryclone", line[:600], (y or "NONE")[:300], (x or "NONE")[:300],
+                              "searching through a clone of a compiled expression differs from searching the expression itself")
     ctx.coverage["searches"] = nsearch
     ctx.coverage["streams"] = ["history"]
